@@ -113,7 +113,7 @@ def r14a(model, ctx):
 
 def r14b(model, ctx):
     R = "R-14b"
-    f = model.func(f"{W}::connect.connect_value")
+    f = model.func_moved(f"{W}::connect.connect_value")
     paths = run_paths(f.body, max_paths=512)
     # def-use: .eq receiver from in_path, argument from out_path
     appended = 0
@@ -169,7 +169,19 @@ def r14b(model, ctx):
         "for (in_path, in_member) in in_kind" in t.replace("for in_path, in_member in in_kind", "for (in_path, in_member) in in_kind")
     ctx.check(ok, R, "connect:fan-out", "the single output drives every input of the leaf", "every input member of a leaf must be connected "
               "to the single output member", f"{W}:{fc.lineno}")
-    ok = "connect_dimensions(rest_of_dimensions, out_path=(*out_path, index), in_path=(*in_path, index)" in t
+    # the recursive call on the remaining dimensions appends the same loop index to both paths (whether the helper is a
+    # closure of connect() or a module-level function taking the shared state as extra arguments)
+    fdim = model.func_moved(f"{W}::connect.connect_dimensions")
+    ok = False
+    for lp in ast.walk(fdim):
+        if isinstance(lp, ast.For) and isinstance(lp.target, ast.Name) and dotted(lp.iter.func if isinstance(lp.iter, ast.Call) else lp.iter) == "range":
+            ix = lp.target.id
+            for c in ast.walk(lp):
+                if isinstance(c, ast.Call) and (dotted(c.func) or "").lstrip("_") == "connect_dimensions":
+                    kw = {k.arg: unparse(k.value) for k in c.keywords}
+                    if kw.get("out_path") == f"(*out_path, {ix})" and kw.get("in_path") == f"(*in_path, {ix})" and \
+                            any(unparse(a) == "rest_of_dimensions" for a in c.args):
+                        ok = True
     ctx.check(ok, R, "connect:dimensions", "array elements are connected index by index (same index on both sides)",
               "array dimensions must be connected element-wise with the same index appended to both paths", f"{W}:{fc.lineno}")
     ok = "flattens = {handle: iter(sorted(signature.members.flatten())) for (handle, signature) in signatures.items()}" in \
@@ -251,9 +263,18 @@ def r14d(model, ctx):
                    "initial values)" if k == "init" else ""), f"{W}:{port[0].lineno}")
     ok = any(unparse(s) == "cast_shape = Shape.cast(member.shape)" for s in ast.walk(f) if isinstance(s, ast.Assign))
     ctx.check(ok, R, "as_json:port:cast_shape", "Shape.cast(member.shape)", "width/signed must come from Shape.cast(member.shape)", f"{W}:{f.lineno}")
-    t = unparse(f)
-    ok = "for (sub_name, sub) in member.signature.members.items()" in t.replace("for sub_name, sub in", "for (sub_name, sub) in") and \
-        "getattr(origin, sub_name)" in t and "path=(*path, sub_name)" in t
+    def members_comp(root, sig, origin, path_of):
+        """a dict comprehension {N: translate_dimensions(M.dimensions, M, getattr(ORIGIN, N), path=PATH(N)) for N, M in SIG.members.items()}"""
+        for n in ast.walk(root):
+            if isinstance(n, ast.DictComp) and len(n.generators) == 1 and not n.generators[0].ifs and \
+                    unparse(n.generators[0].iter) == f"{sig}.members.items()" and isinstance(n.generators[0].target, ast.Tuple) and \
+                    len(n.generators[0].target.elts) == 2:
+                N, M = (unparse(x) for x in n.generators[0].target.elts)
+                if unparse(n.key) == N and unparse(n.value) == f"translate_dimensions({M}.dimensions, {M}, getattr({origin}, {N}), path={path_of(N)})":
+                    return True
+        return False
+    fx = model.func_expanded(f"{W}::ComponentMetadata.as_json", depth=3, exclude=("translate_dimensions", "translate_member"))
+    ok = members_comp(fx, "member.signature", "origin", lambda N: f"(*path, {N})")
     ctx.check(ok, R, "as_json:interface", "recursion over the effective sub-signature's members",
               "interface members must recurse over member.signature.members (the effective, flipped-for-In signature)", f"{W}:{f.lineno}")
     fa = model.func(f"{W}::ComponentMetadata.as_json")
@@ -263,8 +284,8 @@ def r14d(model, ctx):
     ok = len(val) == 1 and len(rets) == 1 and g.dominates({val[0]}, rets[0]) and unparse(g.stmt[rets[0]].value) == "instance"
     ctx.check(ok, R, "as_json:validate", "the instance is validated against the schema before it is returned",
               "as_json must call self.validate(instance) before returning the instance", f"{W}:{fa.lineno}")
-    t = unparse(fa)
-    ok = "for (member_name, member) in self.origin.signature.members.items()" in t.replace("for member_name, member in", "for (member_name, member) in")
+    ok = members_comp(fx, "self.origin.signature", "self.origin", lambda N: f"({N},)") or \
+        members_comp(fx, "self.origin.signature", "self.origin", lambda N: f"(*(), {N})")
     ctx.check(ok, R, "as_json:top-members", "every member of the component's signature is listed", "as_json must list every member of the "
               "component's signature", f"{W}:{fa.lineno}")
     fd = model.func(f"{W}::ComponentMetadata.as_json.translate_dimensions")
